@@ -36,7 +36,13 @@ fn lfo_calls() -> BoxedStrategy<ApiCase> {
                 4 => (0u16..400).prop_map(LfoCall::Tick),
                 3 => prop_oneof![3 => 0.0f32..=1.0, 1 => Just(1.0f32), 1 => Just(0.0f32)].prop_map(LfoCall::FreqFrac),
                 2 => prop_oneof![Just(fs), Just(f32::from_bits(fs.to_bits() - 1)), Just(1e-45f32), Just(f32::MIN_POSITIVE), Just(0.0f32), Just(-0.0f32), log_uniform(1e-6, fs as f64)].prop_map(LfoCall::Freq),
-                3 => prop_oneof![2 => -1000.0f32..1000.0, 3 => wild_finite()].prop_map(LfoCall::Phase),
+                3 => prop_oneof![
+                    2 => -1000.0f32..1000.0,
+                    3 => wild_finite(),
+                    // just below / at whole cycles, and the first values beyond the integer ranges of u32 / 24 bits
+                    2 => proptest::sample::select(vec![0.99999994f32, -0.99999994, 1.0, -1.0, 0.5, 0.9999999, 1.9999999, 255.99998, 16_777_216.0, 16_777_215.0, 4_294_967_296.0, 4.3e9, -4.3e9, 4_294_967_808.0]),
+                ]
+                .prop_map(LfoCall::Phase),
                 1 => Just(LfoCall::Reset),
                 3 => (0u8..5).prop_map(LfoCall::Get),
             ];
